@@ -347,6 +347,9 @@ def vf2pp_all_isomorphisms(
     mapping = state.mapping
     inverted_mapping = state.inverted_mapping
     termination_length = len(g1)
+    if termination_length == 0:
+        yield {}  # the empty mapping is the only isomorphism of empty graphs
+        return
 
     # Initialize the stack
     node_order: list[AtomId] = _matching_order(params)
